@@ -152,7 +152,7 @@ PROPS["C02"] = {
     "witness_always": ["texlang_macro"],
     "witness_bound": {"texlang_macro": "real VM vs an executable transcription of TeX's macro_call: prefix {none, one token} x parameters {undelimited, delimited by 1-2 tokens, trailing #{} x 1-2 parameters x 10 argument shapes (empty, token, group, several groups, nested groups, leading spaces) x 3-4 replacement texts = 4476 definitions+calls, tokens after the call included"},
     "unverified_callers": [
-        "PROVED: only Parameter::should_trim_outer_braces_if_present (== 'the whole argument is a single group'). BOUNDED (witness driver, not proof): parse_delimited_argument, parse_undelimited_argument, perform_replacement, Macro::call, def.rs parse_prefix_and_parameters / parse_replacement_text, the KMP matcher",
+        "PROVED: should_trim_outer_braces_if_present, parse_delimited_argument, parse_undelimited_argument (+ SpacesUnexpanded::parse_impl, finish_parsing_balanced_tokens), remove_tokens_from_stream, perform_replacement, the KMP matcher. BOUNDED (witness driver, not proof): Macro::call's own loop (argument index bookkeeping), Parameter::parse_argument dispatch, def.rs parse_prefix_and_parameters / parse_replacement_text",
         "## in replacement texts, more than two parameters, \\long/\\outer, the VM expansion loop",
     ],
     "assumptions": [],
